@@ -5,7 +5,10 @@ MONITORS = dict((u.name, ("m_capsule", lambda v: None, lambda nm: None, 20000)) 
 
 
 def run(ctx):
+    from checklib import REPO
+    from tables import invariants as I
     ctx.pyvc(W.UNITS, MONITORS)
+    I.release_pairing(ctx, I.load_tables(REPO))
     ctx.trusted += [
         "pyvc, z3 5.1, cvc5 1.0.3; str(int) injective on naturals (z3 str.from_int)",
         "util.wformat / append_format / append_format_cmds: trusted contracts (result abstract, may raise SystemExit)",
